@@ -259,6 +259,51 @@ def _esc_child(case):
     return bad
 
 
+# ---- numbers spelled with non-ASCII digits / padded with Unicode whitespace: int(str) and float(str) read them, so every carrier does
+UNI_NUMS = ["\u0661\u0662\u0663", "\uff14\uff12", "\xa07", "7\u2003", "\u0967.\u096b", " 42 ", "1_000", "\u0665e2", "-\u0663"]
+UNI_TYPES = ["int", "float", "typing.Optional[int]", "typing.Union[int, str]", "typing.Union[float, str]", "decimal.Decimal", "fractions.Fraction",
+             "typing.List[int]", "bool"]
+
+
+def _uni_child(_job):
+    import decimal
+    import fractions
+    import typing
+    import warnings
+    warnings.simplefilter("ignore")
+    import typelib
+    ns = {"typing": typing, "decimal": decimal, "fractions": fractions}
+    bad = []
+    n = 0
+    for tx in UNI_TYPES:
+        t = eval(tx, ns)
+        for s_ in UNI_NUMS:
+            outs = {}
+            for name, mk in (("str", lambda x: x), ("bytes", lambda x: x.encode()), ("bytearray", lambda x: bytearray(x.encode())),
+                             ("memoryview(bytes)", lambda x: memoryview(x.encode())), ("memoryview(bytearray)", lambda x: memoryview(bytearray(x.encode())))):
+                try:
+                    r = typelib.unmarshal(t, mk(s_))
+                    outs[name] = ("ok", type(r).__name__, repr(r))
+                except Exception as e:  # noqa: BLE001
+                    outs[name] = ("rejected",)
+            n += 1
+            if len(set(outs.values())) > 1:
+                bad.append([tx, s_, {k: list(v) for k, v in outs.items()}])
+    return {"bad": bad, "n": n}
+
+
+def unicode_number_probe(res):
+    from .. import iso
+    o = iso.map_isolated(_uni_child, [None], timeout=60.0)[0]
+    if not isinstance(o, dict) or "bad" not in o:
+        raise RuntimeError(f"harness: unicode number probe failed: {o}")
+    res.case({"family": "non-ascii-numeric-text"}, True)
+    for tx, s_, outs in o["bad"]:
+        res.failures.append({"what": f"unmarshal({tx}, {s_!r}) depends on the carrier of the text: {outs}"[:500], "input": {"uni_number": [tx, s_]}})
+    if not o["bad"]:
+        res.count("oracle:non-ascii-numeric-text-carrier-independent", o["n"])
+
+
 def escaped_json_probe(res):
     from .. import iso
     outs = iso.map_isolated(_esc_child, ESC_CASES, timeout=60.0)
@@ -366,6 +411,7 @@ def explore(ctx):
             else:
                 res.count("oracle:text-equivalent")
     escaped_json_probe(res)
+    unicode_number_probe(res)
     return res
 
 
@@ -398,6 +444,11 @@ def witness(fid):
 
 def replay(failure):
     inp = failure["input"]
+    if "uni_number" in inp:
+        from .. import iso
+        o = iso.map_isolated(_uni_child, [None], timeout=60.0)[0]
+        print(json.dumps(o, indent=1, ensure_ascii=True)[:3000])
+        return bool(o.get("bad")) if isinstance(o, dict) else True
     if "esc_case" in inp:
         from .. import iso
         bad = iso.map_isolated(_esc_child, [tuple(inp["esc_case"])], timeout=60.0)[0]
